@@ -31,7 +31,8 @@ RULE = ('an execution = (stream of 1..4 encodings, substrate double, arrival sch
 ASSUMPTIONS = ['seekable double keeps the whole byte string in its buffer like the repository\'s NonBlockingStream test '
                'double (a growing BytesIO cannot tell "no data yet" from EOF)',
                'expected objects are the generator\'s own values (independent of pyasn1); for damaged streams the '
-               'expectation is the outcome of decoding the complete bytes']
+               'expectation is the outcome of decoding the complete bytes, two different library errors counting as '
+               'the same ending (damaged streams are outside the property\'s quantifier)']
 KEY_FEATURES = ('double:seekable', 'double:raw', 'policy:short', 'policy:none', 'spec', 'nospec', 'damaged')
 
 DEC = {'BER': ber_decoder, 'CER': cer_decoder, 'DER': der_decoder}
@@ -172,6 +173,13 @@ def drive(dec, data, spec, double, policy, chunks, polls, eos_after, start_empty
             'closed': g.closed, 'log_tail': g.log[-6:], 'reads': g.reads, 'all_delivered': not pending}
 
 
+_LIB_ERRORS = set(n for n, c in vars(error).items() if isinstance(c, type) and issubclass(c, error.PyAsn1Error))
+
+
+def library_error(terminal):
+    return terminal.startswith('raised:') and terminal.split(':', 1)[1] in _LIB_ERRORS
+
+
 def check_history(res, h, exp_keys, exp_terminal, T, feats, case):
     """Offline checker over one recorded history."""
     objs = [x for kind, x in h['items'] if kind == 'obj']
@@ -196,6 +204,13 @@ def check_history(res, h, exp_keys, exp_terminal, T, feats, case):
         res.witness(sym, feats, case, 'got %d objects (terminal %s), expected %d (terminal %s); log tail %r' % (
             len(got_keys), h['terminal'], len(exp_keys), exp_terminal, h['log_tail']))
         return False
+    if h['terminal'] != exp_terminal and 'damaged' in feats and \
+            library_error(h['terminal']) and library_error(exp_terminal):
+        # the property quantifies over streams of valid encodings; for a damaged stream *which* library error
+        # ends the iteration may depend on how much of the garbage had arrived (e.g. the raw fragment collector
+        # of a constructed string takes "whatever is there" for an indefinite-length non-string fragment)
+        res.see('damaged:different-library-errors-under-different-schedules')
+        return ok
     if h['terminal'] != exp_terminal:
         res.witness('terminal-differs:%s-instead-of-%s' % (h['terminal'], exp_terminal), feats, case,
                     '%d objects; log tail %r' % (len(got_keys), h['log_tail']))
